@@ -180,6 +180,41 @@ func (p *Pkg) orderTable() (v *types.Var, groups [][]string, lit ast.Expr, err e
 			}
 		}
 	}
+	// a table of string lists is an order table when its strings are (mostly)
+	// metric abbreviations; tables of value names are something else
+	{
+		var kf []*types.Var
+		var ki []ast.Expr
+		for i, o := range found {
+			keep := true
+			if inits[i] != nil {
+				if lv, ok := p.listValue(inits[i]); ok && lv.K == VList {
+					total, abvs := 0, 0
+					for _, g := range lv.T {
+						if g.K != VList {
+							continue
+						}
+						for _, e := range g.T {
+							if e.K == VStr {
+								total++
+								if vocab[p.Key].byAbv[e.S] != nil {
+									abvs++
+								}
+							}
+						}
+					}
+					if total > 0 && 2*abvs < total {
+						keep = false
+					}
+				}
+			}
+			if keep {
+				kf = append(kf, o)
+				ki = append(ki, inits[i])
+			}
+		}
+		found, inits = kf, ki
+	}
 	if len(found) == 0 && vocab[p.Key].Order != "fixed" {
 		return nil, nil, nil, nil
 	}
@@ -446,6 +481,8 @@ type EmitModel struct {
 	BufObj    types.Object
 	MakeCall  *ast.CallExpr
 	LenCall   *ast.CallExpr
+	// CapExpr: the expression, in Vector, whose value becomes the buffer's capacity
+	CapExpr ast.Expr
 	// Semantic: obtained by symbolic interpretation of Vector (semit.go); the
 	// syntactic recogniser below is the fallback
 	Semantic bool
@@ -927,7 +964,9 @@ func (w *World) rulesVocab(out *[]Obligation) {
 		}
 		// kvm
 		if ks := (*KvmSem)(nil); ov.Order == "free" {
-			ks = p.kvmSem(p.parseModelOf())
+			// (on the program the parser rules were decided on: as written, or inlined)
+			pp := w.parseVerdictOf(p.Key).pkg
+			ks = pp.kvmSem(pp.parseModelOf())
 			if ks.Decided {
 				// semantic model (skvm.go): representation-independent
 				var want []string
